@@ -115,8 +115,22 @@ DESC = {
  "S110": ("C09", "DELETE checks a row handler's row-set against the version manager's object pool instead of its own snapshot", "a DELETE pinned before a compaction of its table commits, the lock taken afterwards, while an older snapshot keeps the replaced row-sets alive"),
  "S111": ("C07", "the delete-vector offset of a batch comes from a cursor that is not advanced when a wholly deleted batch is skipped", "a row-set read in more than one batch with one complete batch deleted and rows surviving behind it"),
  "S52": ("C10", "reverse of repair db497b9: the binder fetches the table by id with unwrap() after resolving its name", "DROP TABLE by another session between the binder's two catalog lookups (multi-thread runtime)"),
+ "S112": ("C05", "`DiskRowset::start_rowid` becomes a binary search for the last block whose first key is <= the begin key (was: strictly <)", "an INT key with a run of equal values that ends one block and starts the next, and a pushed-down range whose inclusive start is that value"),
+ "S113": ("C11", "sort aggregation never continues a group whose key contains NULL ('as the merge join does')", "a plan with SortAgg and at least two rows with a NULL grouping key"),
+ "S114": ("C18", "the compactor logs and skips a row-set whose iterator cannot be created, and the unchanged commit code still deletes every selected row-set", "damage in the first block of a column file of one of several row-sets, then a compaction pass that selects them: the first read fails, later reads return Ok without that row-set's rows"),
+ "S115": ("C12", "a 'sorted bulk load' fast path sends a key-ordered chunk straight to the row-set builder while the memtable is empty", "one INSERT / COPY of more than 1024 rows into a keyed disk table whose first chunk is in key order and a later chunk holds smaller keys"),
+ "S116": ("C19", "TIMESTAMP / TIMESTAMPTZ literals accept fractional seconds (`%S%.f`) while Display still prints milliseconds", "a literal with 4-6 fractional digits: it prints like another value and does not read back as itself"),
+ "S117": ("C17", "`optimize_stage` keeps the previous plan when the extracted plan's cost is not finite (also for the stage that lowers subqueries)", "row estimates so large that the root cost overflows f32, and a subquery anywhere in the statement"),
+ "S118": ("C16", "casts between TIMESTAMP and TIMESTAMPTZ return the array unchanged ('same i64 representation')", "a non-string TIMESTAMP value converted to TIMESTAMPTZ or back (CAST, INSERT ... SELECT)"),
+ "S119": ("C20", "COPY TO computes its per-column 'has NULLs' flags from the first chunk only", "an export of several chunks with a NULL in a column whose first chunk has none"),
 }
 STRENGTHENED = {
+ "S112": "missed by the first C05 (keys were rarely duplicated inside one row-set and never probed value by value; C13 caught it); caught after the key-range probes and the table with long runs of equal INT keys were added",
+ "S114": "missed by the first C18 and by C09 (with the 600-byte row-set target of C18's layout a compaction pass selects nothing, so the pass after the reads was a no-op); caught after the same damaged files are also opened with a large row-set target, where the pass merges the table's row-sets",
+ "S115": "missed by the first C12 and by C05 (no INSERT had more than 60 rows, so none reached storage in two chunks); caught after a third of the keyed tables get one INSERT of 1030-2100 rows whose first 1024 keys ascend and whose later keys are smaller",
+ "S116": "missed by the first C19 (its timestamps were whole seconds, the only values the unchanged parser can make); caught after literal texts beyond the pools (fractions of a second, exponents, unusual units) are parsed by the type itself and every accepted one joins the pool",
+ "S117": "missed by the first C17 / C01 (mocked row estimates ended at 100 000); caught after the extreme-statistics leg (estimates of 2e9..u32::MAX around a derived table holding the subquery). That leg first found a defect of the unchanged tree (NaN cost panics egg's extractor, repaired in c3dede1)",
+ "S118": "missed by the first C16 / C14 (neither drove TIMESTAMP / TIMESTAMPTZ / INTERVAL / BLOB columns through casts or INSERT ... SELECT); caught after the temporal leg (casts between every pair of those types and inserts that need them, judged by runtime variant vs derived / declared type)",
  "S102": "missed by the first C20 (no text cell started with a character another CSV dialect gives a meaning); caught after `#`, backslash, BOM, `=1+1` ... were added to the string pool",
  "S83": "missed by the first C01 (LIMIT directly above a plain scan was almost never generated; C12 caught it); caught after the `bare_scan` shape (LIMIT / ORDER BY above a plain column scan, limits around the real row count, mocked statistics) was added",
  "S91": "missed by the first C10; caught after DDL/DML race gates were added to the current-thread leg",
